@@ -471,7 +471,7 @@ PROPERTIES = {
         "rule": ("random operation sequences (3..62 operations) over a pool of messages whose bodies are drawn from 44 types: u8 u32 i32 f32 [u8;4] u64 u128 bool char "
                  "String Vec<u8> Option Result Box VecDeque BTreeMap () two layout twins, derived named / tuple / unit structs, a derived enum with unit / tuple / "
                  "named / nested variants, generic derived types, two tracked clonable types, a tracked non-clonable type, a zero-sized type with a counted destructor, a non-debuggable type, and - so that every MessageBody impl of des is measured with elements of differing length - [String;3], [Option<u32>;4], LinkedList<String>, HashMap<u8,String> (up to 39 entries), HashSet<String>, BTreeSet<String>, a derived wrapper of BinaryHeap<u16>, (IpAddr, SocketAddr, Duration, SimTime) with v4 and v6 addresses, Vec<String>, &'static str, &'static [u16], the 1-tuple, an 8-tuple and a tuple of the remaining integer / float primitives; every 500 sequences a probe with two distinct types that share one type name (same-named items in two block scopes). Operations: "
-                 "create (set_content* / set_body / with_body), replace content (same or other type), try_clone, probe with a foreign type (can_cast, try_content, "
+                 "create (set_content* / set_body / with_body / Body::new_with_len with a length declared by the caller / Message::from_parts), replace content (same or other type), try_clone, probe with a foreign type (can_cast, try_content, "
                  "try_content_mut; layout twins preferred), failing try_cast (message must come back intact), try_cast to the own type, try_content_mut, format, "
                  "drop. Shadow model (type, value, length, id) checked after every operation; tracked values dropped exactly once at the end; length() == 64 + a "
                  "hand-written reference size; every 2000 sequences one message of every type is sent over an 8000 bit/s channel and must arrive after exactly "
